@@ -34,6 +34,17 @@ type CEnv struct {
 	scope token.Pos // position for local-name lookup (0: none)
 	inOld bool
 	what  string
+	li    *loopInfo
+}
+
+// inLoopHead: the range counter belonging to loop li is the one incremented in its head block.
+func inLoopHead(li *loopInfo, a *ssa.Alloc) bool {
+	for _, ins := range li.head.Instrs {
+		if st, ok := ins.(*ssa.Store); ok && st.Addr == a {
+			return true
+		}
+	}
+	return false
 }
 
 type cerr struct{ msg string }
@@ -77,6 +88,8 @@ func (e *CEnv) sortOf(t *CType) (*Sort, bool) {
 			return BV(64), true
 		case "Ref":
 			return RefSort, false
+		case "bytearr":
+			return byteArr, false
 		case "string":
 			e.fail("string-typed ghost values are not supported; use Bytes")
 		}
@@ -278,6 +291,17 @@ func (e *CEnv) ident(name string) CVal {
 	c := e.fx.c
 	if v, ok := e.bound[name]; ok {
 		return v
+	}
+	if name == "rangeindex" && e.li != nil && !e.inOld {
+		// hidden counter of a range-over-slice loop (value at the loop head: index of the last visited element)
+		for a := range e.li.modAlloc {
+			if a.Comment == "rangeindex" && a.Parent() == e.fr.fn {
+				if inLoopHead(e.li, a) {
+					return e.goVal(e.fx.load(e.st, e.fr.regs[a].(PtrV)), types.Typ[types.Int])
+				}
+			}
+		}
+		e.fail("this loop has no range index")
 	}
 	// inside the body (loop invariants) a name denotes the variable's current value
 	if e.fr != nil && e.scope.IsValid() && !e.inOld {
@@ -928,6 +952,14 @@ func (e *CEnv) call(x *CExpr) CVal {
 	case "bytesEq":
 		a, b := e.Eval(x.Args[0]), e.Eval(x.Args[1])
 		return CVal{V: e.fx.bytesEq(e.st, a, b), T: types.Typ[types.Bool]}
+	case "arr", "off":
+		// arr(s), off(s): the byte array and start offset behind a string / []byte / byte-array object
+		v := e.Eval(x.Args[0])
+		a, o, _ := e.fx.seqParts(e.st, v)
+		if x.Name == "arr" {
+			return CVal{V: a, G: &CType{Kind: "name", Name: "bytearr"}}
+		}
+		return CVal{V: o, T: intT, Signed: true}
 	case "isnil":
 		v := e.Eval(x.Args[0])
 		return CVal{V: e.fx.isNil(v.V), T: types.Typ[types.Bool]}
